@@ -36,6 +36,10 @@ def plan(tier, seed):
     cfgs.append(dict(depth=3, factor=2.0 ** -12, init=0, strict=1, syncsteps=3))
     cfgs.append(dict(depth=3, factor=0, init=0, strict=1, syncsteps=3))
     cfgs.append(dict(depth=2 if quick else 3, factor=0, init=5, strict=0, syncsteps=2))
+    # timeouts without any harness callback (a timer abandoned by an interrupted process has no callbacks at all), an
+    # integer clock of 2^60
+    cfgs.append(dict(depth=3 if quick else 4, factor=1, init=0, strict=1, syncsteps=2, noprobe=1))
+    cfgs.append(dict(depth=3, factor=1, init=2 ** 60, strict=1, syncsteps=2))
     # run(until=T) segments of an environment that is (or has become) idle: the pacing applies to the stop as well
     for factor in (0.5, 2):
         for strict in (1, 0):
@@ -135,7 +139,7 @@ def execute(ch, cfg):
         env = RealtimeEnvironment(initial_time=init, factor=f, strict=strict)
         real_start = clock["wall"]
         rec = Rec(ch)
-        k = KC.K(rec, OPS, cfg["depth"], env=env, reaction=False)
+        k = KC.K(rec, OPS, cfg["depth"], env=env, reaction=False, probe_timeouts=not cfg.get("noprobe"))
         seen = 0
         last_offer_now = init
         offers_late = 0
@@ -165,6 +169,17 @@ def execute(ch, cfg):
                 if not want_raise or not raised.startswith("Simulation too slow for real time"):
                     bad = ("C20.strict", "raised-%s" % ("in-non-strict-mode" if not strict else ("although-lag<=factor" if raised.startswith("Simulation too slow") else "an-unrelated-RuntimeError")),
                            "lag %r factor %r strict %r: %s" % (lag, f, strict, raised[:60]))
+                    break
+                # a caller that catches the error and simply tries again (no sync(), no time gained) is refused again
+                res.ev("C20.strict")
+                try:
+                    env.step()
+                    bad = ("C20.strict", "too-slow-step-accepted-at-the-second-attempt", "lag %r > factor %r, nothing changed since the refusal" % (lag, f))
+                except RuntimeError as e2:
+                    if not str(e2).startswith("Simulation too slow for real time"):
+                        bad = ("C20.strict", "raised-an-unrelated-RuntimeError", str(e2)[:60])
+                except BaseException as e2:  # noqa
+                    bad = ("C20.same", "run-raised-%s" % type(e2).__name__, repr(e2)[:100])
                 break
             except BaseException as e:  # noqa
                 bad = ("C20.same", "run-raised-%s" % type(e).__name__, repr(e)[:100])
@@ -173,7 +188,7 @@ def execute(ch, cfg):
                 bad = ("C20.strict", "too-slow-step-not-refused", "lag %r > factor %r in strict mode" % (lag, f))
                 break
             for ent in k.log[seen:]:
-                if ent[3] in ("start", "probe") or (ent[3] == "resume" and ent[6][0] == "intr"):
+                if ent[3] in ("start", "probe", "resume"):
                     res.ev("C20.notearly")
                     need = real_start + (ent[2] - init) * f
                     if clock["wall"] < need:
@@ -194,7 +209,7 @@ def execute(ch, cfg):
         res.bad("C20.clock", "virtual-clock-never-consulted", "")
         return res
     # same event sequence as the plain Environment on the same program
-    plain = KC.K(Replayer(rec.prog), OPS, cfg["depth"], env=Environment(init), reaction=False).run()
+    plain = KC.K(Replayer(rec.prog), OPS, cfg["depth"], env=Environment(init), reaction=False, probe_timeouts=not cfg.get("noprobe")).run()
     a = [x[2:] for x in k.log]
     b = [x[2:] for x in plain.log]
     res.ev("C20.same")
